@@ -29,7 +29,7 @@ CLAIMED = {
             "Bounded SMT per mapper template: the real make_tile_shapes runs with all its pruning; z3, over the finite domain of every perfectly factorising tile assignment (one-hot symbols, table-defined monomials of the captured objective/usage formulas), shows that no valid assignment has an objective vector that is not weakly dominated by a returned row; every returned row is checked to be the image of a valid assignment. Spatial loops are part of the domain and loop-bound constraints part of the validity specification (PE-array configurations). ~150 (quick) / ~1700 (thorough) templates, rank bounds up to 64/48.",
             "End-to-end per template (not the per-stage obligations planned first); relies on C07 for 'the captured formulas are what the exploration evaluates'; single-Einsum templates only (no reservation/fused-loop columns), perfect factorisation (imperfect candidates are decided under C10), no max_fused_loops / tile-shape / min-usage constraints, zero tolerances; float32 tolerance 2e-5 on objectives.", "4/C08"),
     "C10": ("model_checking", "bounded translation of the integer kernels' Python source (inspect.getsource at run time) into SMT by the guarded-merge interpreter; z3 over a symbolic argument",
-            "Bounded SMT (CBMC style, unwinding assertions): _factorize(n) and _divisors(n) return exactly the divisors of n, _factorize_imperfect(n) contains the smallest shape of every achievable tile count and nothing above n, _count_factorizations(n, pattern) equals a brute-force chain count, for every n up to 64/48/36/10 (quick) and 96/96/56/14 (thorough) and every loop pattern of length <= 3/4; get_possible_factor_sizes (nested closure, Python sets, sorted, round, while) is encoded with a symbolic outer size up to 48/64 (perfect) and 24..48/36..64 (imperfect, dividing or not) for inner sizes 1..4.",
+            "Bounded SMT (CBMC style, unwinding assertions): _factorize(n) and _divisors(n) return exactly the divisors of n, _factorize_imperfect(n) contains the smallest shape of every achievable tile count and nothing above n, _count_factorizations(n, pattern) equals a brute-force chain count, for every n up to 64/48/36/10 (quick) and 80/96/48/14 (thorough) and every loop pattern of length <= 3/4; get_possible_factor_sizes (nested closure, Python sets, sorted, round, while) is encoded with a symbolic outer size up to 48/64 (perfect) and 24..48/36..64 (imperfect, dividing or not) for inner sizes 1..4.",
             "Coarseness 1 only; inner sizes 1..4 are concrete (case split), the outer size symbolic; a concrete sweep against brute force (outer <= 160/600, all inner divisors) remains as validation; math.ceil/round on quotients and square roots are modelled exactly (float exactness below 2^52 assumed); an unsupported Python construct in the analysed source is exit 3 (inconclusive).", "4/C10"),
     "C07": ("translation_validation", "four captured representations of every exploration formula (symengine tree, sympy tree, objective formula, lambdified source) proven pairwise equivalent by z3 over the tile-shape box",
             "Translation validation with bounded SMT: the real make_tile_shapes runs on mapper templates (real get_jobs) under four capturing wrappers; for each formula z3 shows symengine tree == sympy tree == Objective.formula == the lambdified function's source for every integer tile assignment in [1, rank bound]^symbols (no divisibility assumed); the lambdify cache is exercised with sibling expressions whose returned function must compute the requested expression (z3); the formula-vs-concrete-mapping leg is validated by running the real run_model on numeric copies of the template at solver/mapper-chosen assignments.",
